@@ -77,10 +77,10 @@ _ROLES = {}
 
 
 def roles(p):
-    """The buffer's private helpers, identified by what they do rather than by name:
-       FIND   - the method that hands a prefix to IndiMessage.from_string,
-       RESYNC - the method that consults the known start tags and truncates the buffer,
-       DROP1  - the other method that calls RESYNC (drops one character first).
+    """The buffer's private helpers, identified by what they do rather than by name (helpers they call count as theirs):
+       FIND   - the method that (directly or through private helpers) hands a prefix to IndiMessage.from_string,
+       RESYNC - the innermost method that consults the known start tags and truncates the buffer,
+       DROP1  - a method other than process whose own body truncates and then calls RESYNC (may not exist: None).
     """
     import ast as _ast
     key = id(p)
@@ -89,6 +89,18 @@ def roles(p):
     B = buf_cls(p)
     pub = {"process", "append", "__init__"}
     cand = [fi for n, fi in B.methods.items() if n not in pub]
+    byname = {fi.name: fi for fi in cand}
+
+    def own_calls(fi):
+        return {n.func.attr for n in _ast.walk(fi.node) if isinstance(n, _ast.Call) and isinstance(n.func, _ast.Attribute) and isinstance(n.func.value, _ast.Name) and n.func.value.id == "self" and n.func.attr in byname}
+
+    def closure(fi, seen=None):
+        seen = seen if seen is not None else set()
+        for c in own_calls(fi):
+            if c not in seen:
+                seen.add(c)
+                closure(byname[c], seen)
+        return seen
 
     def calls_attr(fi, attr):
         return any(isinstance(n, _ast.Call) and isinstance(n.func, _ast.Attribute) and n.func.attr == attr for n in _ast.walk(fi.node))
@@ -99,19 +111,23 @@ def roles(p):
     def stores_data(fi):
         return any(isinstance(n, _ast.Attribute) and n.attr == "data" and isinstance(n.ctx, _ast.Store) and isinstance(n.value, _ast.Name) and n.value.id == "self" for n in _ast.walk(fi.node))
 
-    find = [fi for fi in cand if calls_attr(fi, "from_string")]
-    resync = [fi for fi in cand if mentions_self(fi, "allowed_tags") and stores_data(fi)]
+    def trans(fi, pred):
+        return pred(fi) or any(pred(byname[c]) for c in closure(fi))
+
+    find = [fi for fi in cand if trans(fi, lambda f_: calls_attr(f_, "from_string"))]
+    find = [fi for fi in find if not any(byname[c] in find for c in closure(fi))] or find
+    tagged = [fi for fi in cand if stores_data(fi) and trans(fi, lambda f_: mentions_self(f_, "allowed_tags"))]
+    # innermost: does not call another candidate of the same kind
+    resync = [fi for fi in tagged if not any(byname[c] in tagged for c in closure(fi))]
     if len(find) != 1 or len(resync) != 1:
         raise Undecided(f"buffer helper roles not identified (from_string callers: {[f.name for f in find]}, resynchronisers: {[f.name for f in resync]})")
-    drop = [fi for fi in cand if fi is not resync[0] and fi is not find[0] and calls_attr(fi, resync[0].name) and stores_data(fi)]
-    if len(drop) != 1:
-        raise Undecided(f"single-character drop helper not identified ({[f.name for f in drop]})")
-    r = {"FIND": find[0].name, "RESYNC": resync[0].name, "DROP1": drop[0].name}
+    drop = [fi for fi in cand if fi is not resync[0] and fi is not find[0] and resync[0].name in own_calls(fi) and stores_data(fi)]
+    r = {"FIND": find[0].name, "RESYNC": resync[0].name, "DROP1": drop[0].name if len(drop) == 1 else None}
     _ROLES[key] = r
     return r
 
 
-def explore_process(ctx, inline=("FIND", "DROP1"), may_raise=False, max_while=2):
+def explore_process(ctx, inline=("FIND", "DROP1"), may_raise=False, max_while=2, explicit_only=False):
     p = ctx.p
     B = buf_cls(p)
     f = B.find_method("process")
@@ -123,6 +139,9 @@ def explore_process(ctx, inline=("FIND", "DROP1"), may_raise=False, max_while=2)
 
     def pol(fi, node):
         return fi.cls is B and fi.name in inline
+    # private helpers are inlined by the engine; the resynchroniser (and, where a rule asks for it, other helpers it does
+    # not list) stay observable as calls: their contract is decided separately (check_discard)
+    keep = {R["RESYNC"]} | ({R[k] for k in ("FIND", "DROP1") if R.get(k) and R[k] not in inline} if explicit_only else set())
 
     def raiser(ev):
         callee = ev.data.get("callee")
@@ -132,7 +151,7 @@ def explore_process(ctx, inline=("FIND", "DROP1"), may_raise=False, max_while=2)
             return "Exception"
         return None
 
-    opts = {"inline": pol, "max_while": max_while}
+    opts = {"inline": pol, "max_while": max_while, "keep_calls": keep}
     if may_raise:
         opts["call_may_raise"] = raiser
     paths = run_method(p, f, opts=opts, max_paths=20000)
@@ -519,30 +538,37 @@ def check_discard(ctx, rule):
         ctx.undecided(rule, f.short, "no truncation found in _cleanup_buffer", fi=f)
     elif not bad:
         ctx.holds(rule, f.short, f"{n} truncations over {len(paths)} paths: earliest known tag, else last '<', else discard-all only when neither exists", fi=f)
-    # _cleanup_beginning: constant 1, then resynchronise; called only under the threshold guard
-    g = B.find_method(roles(p)["DROP1"])
-    paths = run_method(p, g)
-    ok = True
-    for pa in paths:
-        st = data_stores(pa)
-        if len(st) != 1 or classify_store(pa.interp, st[0].data["value"]) != ("suffix", 1):
-            ok = False
-        if not any(is_call(e.data["term"], method=roles(p)["RESYNC"]) and e.idx > st[0].idx for e in pa.events if e.kind == "call") if st else True:
-            ok = False
-    ctx.check(ok, rule, g.short, "drops exactly one character, then resynchronises", "_cleanup_beginning does not drop exactly one character and resynchronise", fi=g, text="cleanup-beginning")
-    fp, ppaths = explore_process(ctx, inline=("FIND",))
+    # the blind frontal drop, wherever it is written (inline, in a helper, as _discard(1)): every truncation performed in an
+    # iteration of process() - the resynchroniser aside - is either the removal of a scanned prefix (decided by
+    # CONSUME / RECOVER) or drops exactly one character; the latter only after 'length > threshold' was established on a
+    # path with the threshold enabled, and it is followed by a resynchronisation before the next scan.
+    fp, ppaths = explore_process(ctx)
+    R = roles(p)
     okc = True
-    ncall = 0
+    why = None
+    ndrop = 0
     for pa in ppaths:
-        for e in pa.events:
-            if e.kind == "call" and is_call(e.data["term"], method=roles(p)["DROP1"]):
-                ncall += 1
-                guards = [a for a in pa.assumes() if a.idx < e.idx and a.data["truth"] and isinstance(a.data["cond"], Term) and a.data["cond"].op == "cmp" and "max_buffer_size_before_frontal_cleanup" in show(a.data["cond"]) and a.data["cond"].args[0] in (">", ">=")]
-                msg_none = True
+        for it_idx, evs, how in iteration_segments(pa, fp):
+            for e in evs:
+                if not (e.kind == "store" and e.data.get("attr") == "data" and show(e.data["base"]) == "self"):
+                    continue
+                v = e.data["value"]
+                lo = v.args[1].args[0] if isinstance(v, Term) and v.op == "sub" and isinstance(v.args[1], Term) and v.args[1].op == "slice" else None
+                if not (isinstance(lo, Const) and isinstance(lo.v, int)):
+                    continue  # a scanned prefix (symbolic end): CONSUME / RECOVER
+                ndrop += 1
+                if classify_store(pa.interp, v) != ("suffix", 1) or lo.v != 1:
+                    okc, why = False, f"a constant truncation {show(v)[:40]} that is not the single-character drop"
+                    continue
+                guards = [a_ for a_ in pa.assumes() if a_.idx < e.idx and a_.data["truth"] and isinstance(a_.data["cond"], Term) and a_.data["cond"].op == "cmp" and "max_buffer_size_before_frontal_cleanup" in show(a_.data["cond"]) and a_.data["cond"].args[0] in (">", ">=") and any(x is a_ for x in evs)]
                 if not guards or threshold_none_path(pa) is True:
-                    okc = False
-    callers = [fi for fi in p.functions if fi is not fp and any(isinstance(n_, __import__("ast").Call) and isinstance(n_.func, __import__("ast").Attribute) and n_.func.attr == roles(p)["DROP1"] for n_ in __import__("ast").walk(fi.node))]
-    ctx.check(okc and ncall > 0 and not callers, rule, f"{fp.short} -> _cleanup_beginning", "called only when no message was found and length > enabled threshold", "_cleanup_beginning (which drops a character blindly) is reachable without 'length > threshold' having been established, or from elsewhere", fi=fp, text="cleanup-beginning-guard")
+                    okc, why = False, "the single-character drop is reachable without 'length > threshold' having been established in that iteration (or with the threshold disabled)"
+                if not any(x.kind == "call" and is_call(x.data["term"], method=R["RESYNC"]) and x.idx > e.idx for x in evs):
+                    okc, why = False, "the single-character drop is not followed by a resynchronisation in the same iteration"
+    others = [fi for fi in p.functions if fi.cls is not B and any(isinstance(n_, __import__("ast").Attribute) and n_.attr == "data" and isinstance(n_.ctx, __import__("ast").Store) and "buffer" in __import__("ast").unparse(n_.value) for n_ in __import__("ast").walk(fi.node))]
+    if others:
+        okc, why = False, f"the buffer text is assigned from outside the buffer class ({others[0].short})"
+    ctx.check(okc and ndrop > 0, rule, f"{fp.short} frontal drop", "one character, only when no message was found and length > enabled threshold, then resynchronise", f"blind frontal drop: {why or 'no single-character drop found on any path (junk that imitates an element start could never be skipped)'}", fi=fp, text="cleanup-beginning-guard")
 
 
 def check_tags(ctx, rule):
